@@ -394,7 +394,7 @@ def main(tier):
     rep = Report("C02", tier, "model_checking")
     quick = tier == "quick"
     variant = "ossl-asan" if quick else "ossl-plain"
-    deadline = time.time() + (170 if quick else 1700)
+    deadline = time.time() + (600 if quick else 1700)
     depth = 3 if quick else 6
     ex = Explorer(C02(max_keys=2), variant=variant, deadline=deadline)
     try:
